@@ -13,6 +13,8 @@ import (
 	"google.golang.org/protobuf/types/dynamicpb"
 
 	// Link the test-proto corpus (registers with the global registries).
+	_ "google.golang.org/protobuf/internal/testprotos/conformance"
+	_ "google.golang.org/protobuf/internal/testprotos/conformance/editionsmigration"
 	_ "google.golang.org/protobuf/internal/testprotos/editionsfuzztest"
 	_ "google.golang.org/protobuf/internal/testprotos/enums"
 	_ "google.golang.org/protobuf/internal/testprotos/lazy"
@@ -22,6 +24,7 @@ import (
 	_ "google.golang.org/protobuf/internal/testprotos/messageset/msetextpb"
 	_ "google.golang.org/protobuf/internal/testprotos/mixed"
 	_ "google.golang.org/protobuf/internal/testprotos/news"
+	_ "google.golang.org/protobuf/internal/testprotos/order"
 	_ "google.golang.org/protobuf/internal/testprotos/required"
 	_ "google.golang.org/protobuf/internal/testprotos/required/required_hybrid"
 	_ "google.golang.org/protobuf/internal/testprotos/required/required_opaque"
@@ -32,6 +35,9 @@ import (
 	_ "google.golang.org/protobuf/internal/testprotos/testeditions"
 	_ "google.golang.org/protobuf/internal/testprotos/testeditions/testeditions_hybrid"
 	_ "google.golang.org/protobuf/internal/testprotos/testeditions/testeditions_opaque"
+	_ "google.golang.org/protobuf/internal/testprotos/textpb2"
+	_ "google.golang.org/protobuf/internal/testprotos/textpb3"
+	_ "google.golang.org/protobuf/internal/testprotos/textpbeditions"
 	// generator test schemas: more import shapes for C40 (they register under their own packages)
 	_ "google.golang.org/protobuf/cmd/protoc-gen-go/testdata/annotations"
 	_ "google.golang.org/protobuf/cmd/protoc-gen-go/testdata/comments"
